@@ -1496,6 +1496,9 @@ def check_case(case: dict, ev: T.Optional[Evidence] = None, count: bool = True) 
             print('SKIP', skipped, '\n', j.skip_detail[:1500])
     finally:
         shutil.rmtree(root, ignore_errors=True)
+    if skipped is not None and case.get('_pinned'):
+        # a pinned scenario is known to be readable by the reference and by the tool: not reaching its steps is the failure
+        return Failure('scenario/not-judged:' + slug(skipped), case, f'pinned scenario was skipped: {skipped}\n{j.skip_detail[:1500]}')
     if ev is not None and count:
         if skipped is not None:
             ev.exclude('skipped: ' + skipped)
